@@ -1,4 +1,5 @@
 import Cutadapt.Files
+import Cutadapt.Generated.OutFormat
 /-! # C19 — the output format is determined by the file name; interleaving is pairing of consecutive records
 
 Model: `Cutadapt.Files`. Compression codecs, dnaio's readers/writers and multi-member gzip are libraries: "the container is
@@ -170,5 +171,35 @@ example : formatFromChars "out.txt".toList = none := by decide
 #guard outputFormat "out.txt" false true false == .fastq
 #guard outputFormat "-" true true false == .fasta
 example : ∀ e' ∈ compressionSuffixes, e'.isSuffixOf "out.fasta".toList = false := by decide
+
+/-! ## The formats the real program writes (regenerated from the working tree on every run) -/
+
+/-- the documented rule on the characters of a file name: the format named by the last extension below the compression suffix (case
+    ignored), otherwise the format of the input — `outputFormat` for a path other than `-` (`formatFromPath` is `formatFromChars` on the
+    lower-cased characters) -/
+def formatOfName (name : List Char) (inputHasQualities : Bool) : Fmt :=
+  match formatFromChars (name.map Char.toLower) with
+  | some f => f
+  | none => if inputHasQualities then .fastq else .fasta
+
+/-- `formatOfName` is `outputFormat` on the characters of the path (for a path other than `-`, or without `--fasta`) -/
+theorem outputFormat_eq_formatOfName (path : String) (ff q prox : Bool) (hs : path ≠ "-" ∨ ff = false) :
+    outputFormat path ff q prox = formatOfName path.toList q := by
+  have hl : path.toLower.toList = path.toList.map Char.toLower := by simp [String.toLower]
+  unfold outputFormat formatOfName formatFromPath
+  rw [hl]
+  rcases hs with hs | hs
+  · have : (path == "-") = false := by simpa using hs
+    rw [this]
+    cases formatFromChars (List.map Char.toLower path.toList) <;> simp
+  · subst hs
+    cases formatFromChars (List.map Char.toLower path.toList) <;> simp
+
+/-- **Every output file of the real program has the format its name asks for, with one core and with several, for every compression suffix**
+    (`Generated.outputFormats`: names with every format extension, further dots in the base name, upper case, compression suffixes, names
+    without a known extension; FASTQ and FASTA input) — the observed table is the model's rule. -/
+theorem generated_output_formats :
+    ∀ row ∈ Generated.outputFormats, row.2.2.2 = (match formatOfName row.1 row.2.2.1 with | .fasta => 1 | .fastq => 0) := by
+  decide
 
 end Cutadapt.C19
